@@ -2096,6 +2096,8 @@ class _TrampolineArgs:
 
         try:
             final = self._args[-1]
+            if final is None:
+                return self._args[:-1]
             if isinstance(final, ISeq):
                 inits = self._args[:-1]
                 return tuple(itertools.chain(inits, final))
